@@ -2,7 +2,7 @@ import inspect
 import types
 from collections.abc import Container, Iterable
 from dataclasses import dataclass, replace
-from typing import Any, Generic, Optional, TypeVar, Union, cast
+from typing import Any, Generic, Optional, TypeVar, Union, cast, get_type_hints
 
 from ..common import TypeHint
 from ..feature_requirement import HAS_TYPE_UNION_OP
@@ -135,6 +135,8 @@ class PropertyExtender(MethodsProvider):
 
         if signature.return_annotation is inspect.Signature.empty:
             return Any
+        if isinstance(signature.return_annotation, str):  # `from __future__ import annotations`
+            return get_type_hints(prop.fget)["return"]
         return signature.return_annotation
 
 
